@@ -22,7 +22,7 @@ def filler(n):
     return ops
 
 
-def gen_program(rng, big=False):
+def gen_program(rng, big=False, bare=False):
     """Layout program: labels (each followed by a jumpdest sentinel), fixed and auto-sized pushes of
     label expressions, filler sized so that label values land on width boundaries; probes at the end."""
     k = rng.randrange(1, 4)
@@ -59,13 +59,24 @@ def gen_program(rng, big=False):
             prog += filler(max(0, target - est + rng.randrange(-3, 4)))
         while used < len(labels) and pos[used] == i:
             prog.append(("label", labels[used]))
-            prog.append(("op", "jumpdest", None))
+            if not bare:
+                prog.append(("op", "jumpdest", None))
             used += 1
         if i < len(body):
             prog.append(body[i])
     order = [o[1] for o in prog if o[0] == "label"]
+    if bare:
+        # no sentinel: the label must equal the offset of whatever instruction follows it (often an
+        # auto-sized push): recorded as the index of that instruction in the macro-free program
+        order = []
+        k = 0
+        for o in prog:
+            if o[0] == "label":
+                order.append((o[1], k))
+            else:
+                k += 1
     for L in order:
-        prog.append(("op", "push4", ("lbl", L)))
+        prog.append(("op", "push4", ("lbl", L[0] if bare else L)))
     return prog, order
 
 
@@ -159,6 +170,14 @@ def oracle(prog, order, answer):
         return []
     bs = bytes.fromhex(answer[3:]) if answer[3:] != "-" else b""
     items = G.decode(bs)
+    if order and isinstance(order[0], tuple):
+        probes = [int.from_bytes(i, "big") for o, c, i in items[len(items) - len(order):] if c == 0x63]
+        problems = []
+        for (L, idx), p in zip(order, probes):
+            want = items[idx][0] if idx < len(items) else len(bs)
+            if p != want:
+                problems.append(f"label {L} evaluates to {p} but the instruction after it (#{idx}) is at offset {want}")
+        return problems
     jds = [o for o, c, i in items if c == 0x5B]
     probes = [int.from_bytes(i, "big") for o, c, i in items[len(items) - len(order):] if c == 0x63]
     problems = []
@@ -185,8 +204,9 @@ def check(run):
             cat = "macro"
         else:
             big = (i % 60 == 7) if run.tier == 'thorough' else (i == 7)
-            prog, order = gen_program(rng, big)
-            cat = "big" if big else "boundary"
+            bare = (i % 3 == 1)
+            prog, order = gen_program(rng, big, bare)
+            cat = ("big" if big else "boundary") + ("-bare-labels" if bare else "")
         src = G.prog_src(prog)
         cases.append(dict(req="asm " + src.encode().hex(), coq=f"run_asm {G.prog_coq(prog)}", cat=cat, prog=prog, order=order, src=src))
     for prog, order, cat in cascade_programs(rng, 40 if run.tier == "thorough" else 16):
